@@ -34,15 +34,18 @@ type mode struct {
 	name           string
 	short, oneShot bool
 	readerFrom     bool
+	stringWriter   bool
 }
 
 var modes = []mode{
-	{"error-return", false, false, false},
-	{"short-write", true, false, false},
-	{"error-return/one-shot", false, true, false},
-	{"short-write/one-shot", true, true, false},
-	{"error-return/ReaderFrom", false, false, true},
-	{"short-write/ReaderFrom", true, false, true},
+	{"error-return", false, false, false, false},
+	{"short-write", true, false, false, false},
+	{"error-return/one-shot", false, true, false, false},
+	{"short-write/one-shot", true, true, false, false},
+	{"error-return/ReaderFrom", false, false, true, false},
+	{"short-write/ReaderFrom", true, false, true, false},
+	{"error-return/StringWriter", false, false, false, true},
+	{"short-write/StringWriter", true, false, false, true},
 }
 
 func checkArtifact(r *mon.Run, a artifact, ks func(n int) []int, exhaustive bool) {
@@ -72,6 +75,9 @@ func checkArtifact(r *mon.Run, a artifact, ks func(n int) []int, exhaustive bool
 			if m.readerFrom {
 				rf := &gen.FaultWriterRF{FaultWriter: gen.FaultWriter{Limit: k, Short: m.short, OneShot: m.oneShot}}
 				fw, w = &rf.FaultWriter, rf
+			} else if m.stringWriter {
+				sw := &gen.FaultWriterSW{FaultWriter: gen.FaultWriter{Limit: k, Short: m.short, OneShot: m.oneShot}}
+				fw, w = &sw.FaultWriter, sw
 			} else {
 				fw = &gen.FaultWriter{Limit: k, Short: m.short, OneShot: m.oneShot}
 				w = fw
@@ -175,7 +181,7 @@ func bundleArtifact(name string, b *bundle.Bundle) artifact {
 func main() { mon.Main("C19", run) }
 
 func run(r *mon.Run) {
-	r.Rule("for each serializer (Bundle.WriteTo, Exchange.Write, DumpExchangeHeaders, DumpSignedMessage, CertChain.Write, mice.Encode, every cbor.Encoder method incl. EncodeMap with 1..4 entries) and each representative artifact: every fault position k in [0, len(output)) plus the no-fault control k = len, in 6 delivery modes (error return / short write x persistent / one-shot x destination with io.ReaderFrom); artifacts > 64 KiB use every position near both ends and around each 32 KiB multiple plus a stride; distinct = (serializer, artifact, mode)")
+	r.Rule("for each serializer (Bundle.WriteTo, Exchange.Write, DumpExchangeHeaders, DumpSignedMessage, CertChain.Write, mice.Encode, every cbor.Encoder method incl. EncodeMap with 1..4 entries) and each representative artifact: every fault position k in [0, len(output)) plus the no-fault control k = len, in 8 delivery modes (error return / short write x persistent / one-shot, destinations with io.ReaderFrom, destinations with io.StringWriter); artifacts > 64 KiB use every position near both ends and around each 32 KiB multiple plus a stride; distinct = (serializer, artifact, mode)")
 	r.Assume("the instrumented writer is the only source of truth for what the destination accepted; a one-shot fault (a single failing Write) is a destination failure in the sense of the property")
 	var arts []artifact
 	var big []artifact
@@ -203,6 +209,7 @@ func run(r *mon.Run) {
 		{"b2-25ex", gen.BundleOpts{Version: bver.VersionB2, NEx: 25}},
 	}
 	for i, x := range bos {
+		x.o.SmallHeader = true
 		b, _ := gen.RandBundle(r.Rand("bundle", i), x.o)
 		if x.o.NEx > 10 { // many exchanges: keep each tiny so that every position stays affordable
 			for _, e := range b.Exchanges {
@@ -225,9 +232,9 @@ func run(r *mon.Run) {
 		}
 		arts = append(arts, bundleArtifact(x.name, b))
 	}
-	bb, _ := gen.RandBundle(r.Rand("bundle-big", 0), gen.BundleOpts{Version: bver.VersionB2, NEx: 3, Big: 2, Primary: true})
+	bb, _ := gen.RandBundle(r.Rand("bundle-big", 0), gen.BundleOpts{Version: bver.VersionB2, NEx: 3, Big: 2, Primary: true, SmallHeader: true})
 	big = append(big, bundleArtifact("b2-big", bb))
-	bb1, _ := gen.RandBundle(r.Rand("bundle-big", 1), gen.BundleOpts{Version: bver.VersionB1, NEx: 2, Big: 1, Manifest: true})
+	bb1, _ := gen.RandBundle(r.Rand("bundle-big", 1), gen.BundleOpts{Version: bver.VersionB1, NEx: 2, Big: 1, Manifest: true, SmallHeader: true})
 	big = append(big, bundleArtifact("b1-big", bb1))
 
 	// signed exchanges
@@ -364,7 +371,7 @@ func run(r *mon.Run) {
 			if g.Bool() {
 				v = bver.VersionB1
 			}
-			b, _ := gen.RandBundle(g, gen.BundleOpts{Version: v, NEx: g.Intn(6), Primary: g.Bool(), Manifest: g.Bool(), Signatures: g.Chance(1, 3), Certs: acs, VariantSets: g.Intn(2)})
+			b, _ := gen.RandBundle(g, gen.BundleOpts{Version: v, NEx: g.Intn(6), Primary: g.Bool(), Manifest: g.Bool(), Signatures: g.Chance(1, 3), Certs: acs, VariantSets: g.Intn(2), SmallHeader: true})
 			checkArtifact(r, bundleArtifact(fmt.Sprintf("seeded-%d", i), b), every, true)
 		}
 	}
